@@ -3,11 +3,14 @@
 #[macro_export]
 macro_rules! __array_map_by_val {
     ($array:expr, $($closure:tt)* ) => (
-        $crate::__::__parse_closure_1!{
-            ($crate::__array_map2__with_parsed_closure)
-            ($array,)
-            (array_map),
-            $($closure)*
+        // evaluating `$array` before the function that's passed as the closure argument
+        match $array {
+            array => $crate::__::__parse_closure_1!{
+                ($crate::__array_map2__with_parsed_closure)
+                (array,)
+                (array_map),
+                $($closure)*
+            }
         }
     );
 }
